@@ -17,8 +17,8 @@ RTOL = 1e-9
 BOUND = {
     "quick": "all histories of <= 2 mutators over the full alphabet with every observation mask, from every start configuration; "
              "plus all histories of 3 mutators inside each dependency group (masks: never / before every op) from start 0",
-    "thorough": "all histories of <= 3 mutators over the full alphabet (masks: never / before every op / before last op) from every start "
-                "configuration; plus 4 mutators inside each dependency group from start 0",
+    "thorough": "quick, plus all histories of exactly 3 mutators over the full alphabet (masks: never / before every op) from every start "
+                "configuration, plus 4 mutators inside each dependency group from start 0",
 }
 RULE = ("histories enumerated exhaustively per (driver, start, first op); a history is non-trivial when an operation was applied after an "
         "observation and the fresh-build observation of the final configuration differs from that earlier observation (a cache existed and the change mattered); "
@@ -30,8 +30,8 @@ ASSUMPTIONS = [
 ]
 REQUIRED_CLASSES = ["beam:history", "plasma:history", "laser:history", "beam:op-after-observe-mattered",
                     "plasma:op-after-observe-mattered", "laser:op-after-observe-mattered"]
-BUDGET_S = {"quick": 900, "thorough": 3000}
-CHUNK = 1
+BUDGET_S = {"quick": 900, "thorough": 5400}
+CHUNK = 4
 STATES_MEANING = "distinct model configurations (canonical slot/value tuples) reached"
 
 
@@ -73,17 +73,32 @@ def cases(tier):
         drv = _drv(name)
         ops = _ops(drv)
         nstart = len(drv.STARTS)
-        full_depth = 2 if tier == "quick" else 3
+        # every tier: all histories of <= 2 mutators, every observation mask, every start
         for st in range(nstart):
             for first in range(len(ops)):
-                out.append({"driver": name, "start": st, "prefix": [first], "depth": full_depth, "group": None,
-                            "masks": "all" if full_depth <= 2 else "three", "label": "%s:%s" % (name, ops[first][0])})
-        gdepth = 3 if tier == "quick" else 4
+                out.append({"driver": name, "start": st, "prefix": [first], "depth": 2, "group": None,
+                            "masks": "all", "label": "%s:%s" % (name, ops[first][0])})
+        # every tier: 3 mutators inside each dependency group from start 0
         for gname, slots in sorted(drv.GROUPS.items()):
             gops = [i for i, (s, v) in enumerate(ops) if s in slots]
             for first in gops:
-                out.append({"driver": name, "start": 0, "prefix": [first], "depth": gdepth, "group": gname, "exact_depth": True,
+                out.append({"driver": name, "start": 0, "prefix": [first], "depth": 3, "group": gname, "exact_depth": True,
                             "masks": "two", "label": "%s:%s:%s" % (name, gname, ops[first][0])})
+        if tier == "thorough":
+            # all histories of exactly 3 mutators over the full alphabet (masks: never / before every op), every start;
+            # one case per two-op prefix so that the pool stays balanced and a time cap takes effect promptly
+            for st in range(nstart):
+                for first in range(len(ops)):
+                    for second in range(len(ops)):
+                        out.append({"driver": name, "start": st, "prefix": [first, second], "depth": 3, "group": None, "exact_depth": True,
+                                    "masks": "two", "label": "%s:%s,%s" % (name, ops[first][0], ops[second][0])})
+            # 4 mutators inside each dependency group from start 0
+            for gname, slots in sorted(drv.GROUPS.items()):
+                gops = [i for i, (s, v) in enumerate(ops) if s in slots]
+                for first in gops:
+                    for second in gops:
+                        out.append({"driver": name, "start": 0, "prefix": [first, second], "depth": 4, "group": gname, "exact_depth": True,
+                                    "masks": "two", "label": "%s:%s:%s,%s" % (name, gname, ops[first][0], ops[second][0])})
     return out
 
 
@@ -99,6 +114,9 @@ def _fresh(drv, cfg):
     r = _FRESH.get(k)
     if r is None:
         r = _observe(drv, drv.build(copy.deepcopy(cfg)))
+        # stored as nested tuples of floats/strings: such tuples are dropped from the collector's lists after their
+        # first collection, so the memo does not slow down the explicit gc.collect() calls of run_history
+        r = tuple((lab, tuple(vals)) for lab, vals in r)
         if len(_FRESH) > 20000:
             _FRESH.clear()
         _FRESH[k] = r
